@@ -197,6 +197,20 @@ def gen_script(seed, family, length=None, feats=()):
     if family == "multi":
         for _ in range(rng.choice([2, 2, 3, 4])):
             g.spawn(auto=rng.random() < 0.7)
+    elif family == "core" and rng.random() < 0.04:
+        # a long burst behind a gated handler, released in one go: exercises anything that counts
+        # messages (fairness yields, batching) at thresholds up to ~100.  Capacity exceeds the burst
+        # (no sender waits, which would multiply the interleavings the model side has to explore).
+        g.spawn(cap=128, auto=True)
+        g.emit("auto 0 0")
+        for _ in range(rng.randrange(33, 100)):
+            g.emit(f"op {g.new_oid()} tell 0 -")
+        g.emit("auto 0 1")
+        g.emit("hook 0 ok")
+        if rng.random() < 0.5:
+            g.emit("run 0 true")
+        g.emit("advance 1")
+        return g.lines, g.stats
     else:
         g.spawn()
     for _ in range(n):
